@@ -35,7 +35,7 @@ def plan(tier, seed):
 class Session(object):
     """one world, many handshakes"""
 
-    def __init__(self, r, out):
+    def __init__(self, r, out, root_curve=None):
         from mpgameserver import crypto, EllipticCurvePrivateKey
         import mpgameserver.connection as C
         self.C = C
@@ -43,7 +43,16 @@ class Session(object):
         self.r = r
         self.out = out
         self.c = out["counters"]
-        self.w = L.World(r, ctxt_setup=lambda ctxt: ctxt.setTempConnectionTimeout(1.0))
+        root_key = None
+        if root_curve is not None:
+            # the server's long-term key is whatever key file the operator made: other curves than the
+            # one EllipticCurvePrivateKey.new() picks are ordinary (fromPEM / fromBytes accept them)
+            from cryptography.hazmat.primitives.asymmetric import ec
+            from cryptography.hazmat.backends import default_backend
+            root_key = EllipticCurvePrivateKey.fromBytes(
+                EllipticCurvePrivateKey(ec.generate_private_key(getattr(ec, root_curve)(), default_backend())).getBytes())
+            self.c.inc("worlds_root_curve_" + root_curve)
+        self.w = L.World(r, ctxt_setup=lambda ctxt: ctxt.setTempConnectionTimeout(1.0), root_key=root_key)
         w = self.w
         self.signed = set()
         orig_sign = w.root_key.sign
@@ -355,7 +364,7 @@ def build_server_hello(C, base, root_pub=None, payload=None, signature=None, eph
 def run_shard(cfg):
     out = {"violations": [], "counters": Counter(), "samples": [], "distinct": set()}
     r = rng("C02", cfg["seed"], cfg["shard"])
-    S = Session(r, out)
+    S = Session(r, out, root_curve=(None, None, "SECP384R1", None, "SECP521R1", "SECP256K1")[cfg["shard"] % 6])
     C = S.C
     try:
         budget = cfg["budget"]
